@@ -1,4 +1,470 @@
 #!/usr/bin/env python3
-import sys
+"""Orchestrator for the blockwatch verification checks (python3 stdlib only).
+
+  python3 check.py --setup
+  python3 check.py C06 --tier quick|thorough
+  python3 check.py C06 --replay replays/C06/xxx.json
+
+Per property: (1) proof obligations - build Bw/Props/<id>.lean, audit `#print axioms` of every theorem in it;
+(2) correspondence - run the real code (harness `bwh`, in-process) and the Lean model (`bwmodel`) on the same
+generated cases and diff canonical outcomes; (3) known findings; (4) evidence file.
+"""
+import fcntl, hashlib, json, os, re, shutil, subprocess, sys, tempfile, time
+
+ROOT = os.path.dirname(os.path.abspath(__file__))
+LEAN = os.path.join(ROOT, "lean")
+HARNESS = os.path.join(ROOT, "harness")
+WORK = os.path.join(ROOT, "work")
+REPO = os.environ.get("BW_REPO", "/repo")
+BWH = os.path.join(HARNESS, "target", "debug", "bwh")
+BWMODEL = os.path.join(LEAN, ".lake", "build", "bin", "bwmodel")
+REPO_TARGET = os.path.join(HARNESS, "target", "repo")
+BWBIN = os.path.join(REPO_TARGET, "debug", "blockwatch")
+ALLOWED_AXIOMS = {"propext", "Classical.choice", "Quot.sound"}
+ENV = dict(os.environ, CARGO_NET_OFFLINE="true", RUST_BACKTRACE="0")
+
+sys.path.insert(0, os.path.join(ROOT, "checks"))
+
+
+class Broken(Exception):
+    """An obligation or a build step no longer checks."""
+    def __init__(self, what, detail=""):
+        super().__init__(what)
+        self.what, self.detail = what, detail
+
+
+def sh(cmd, cwd=None, timeout=3600, check=True, env=None, input=None):
+    p = subprocess.run(cmd, cwd=cwd, env=env or ENV, stdout=subprocess.PIPE, stderr=subprocess.STDOUT,
+                       timeout=timeout, input=input, text=True)
+    if check and p.returncode != 0:
+        raise Broken("command failed: " + " ".join(cmd), p.stdout[-4000:])
+    return p
+
+
+class Lock:
+    def __enter__(self):
+        os.makedirs(WORK, exist_ok=True)
+        self.f = open(os.path.join(ROOT, ".build.lock"), "w")
+        fcntl.flock(self.f, fcntl.LOCK_EX)
+        return self
+    def __exit__(self, *a):
+        fcntl.flock(self.f, fcntl.LOCK_UN)
+        self.f.close()
+
+
+# ------------------------------------------------------------------------------------------------ builds
+
+def build_harness():
+    lock_src, lock_dst = os.path.join(REPO, "Cargo.lock"), os.path.join(HARNESS, "Cargo.lock")
+    if not os.path.exists(lock_dst):
+        shutil.copy(lock_src, lock_dst)
+    sh(["cargo", "build", "--offline"], cwd=HARNESS)
+
+
+def build_repo_binary():
+    """the CLI built from /repo's current tree with the guard off (own target dir, nothing written to /repo)"""
+    sh(["cargo", "build", "--offline", "--bin", "blockwatch", "--target-dir", REPO_TARGET], cwd=REPO)
+
+
+def translate():
+    p = subprocess.run([sys.executable, os.path.join(ROOT, "tools", "translate.py")], env=ENV,
+                       stdout=subprocess.PIPE, stderr=subprocess.PIPE, text=True)
+    if p.returncode != 0:
+        raise Broken("translator: the source no longer has the shape the translator understands", p.stderr)
+    return json.loads(p.stdout)
+
+
+def tables():
+    os.makedirs(WORK, exist_ok=True)
+    out = sh([BWH, "tables"]).stdout
+    path = os.path.join(WORK, "tables.json")
+    with open(path, "w") as f:
+        f.write(out)
+    sh([sys.executable, os.path.join(ROOT, "tools", "translate.py"), "--tables", path])
+    return json.loads(out)
+
+
+def lake_build(targets):
+    p = sh(["lake", "build"] + targets, cwd=LEAN, check=False)
+    if p.returncode != 0:
+        failed = re.findall(r"error: (Bw/[\w/]+\.lean:\d+:\d+: .*)", p.stdout)
+        raise Broken("lake build failed for " + " ".join(targets), "\n".join(failed[:20]) or p.stdout[-3000:])
+
+
+def theorems_in(module):
+    """names of the theorems stated in a Props module (the obligations of the property)"""
+    path = os.path.join(LEAN, *module.split(".")) + ".lean"
+    src = open(path, encoding="utf-8").read()
+    ns = re.search(r"^namespace (\S+)", src, re.M)
+    prefix = ns.group(1) + "." if ns else ""
+    src_nc = re.sub(r"/-.*?-/", "", src, flags=re.S)
+    src_nc = re.sub(r"--.*", "", src_nc)
+    return [prefix + n for n in re.findall(r"^theorem\s+([\w.']+)", src_nc, re.M)]
+
+
+def forbidden_tokens():
+    bad = []
+    for base, _, files in os.walk(os.path.join(LEAN, "Bw")):
+        for fn in files:
+            if not fn.endswith(".lean"):
+                continue
+            src = open(os.path.join(base, fn), encoding="utf-8").read()
+            src = re.sub(r"/-.*?-/", "", src, flags=re.S)
+            src = re.sub(r"--.*", "", src)
+            for m in re.finditer(r"\bsorry\b|\badmit\b|^axiom\s|native_decide|bv_decide|implemented_by|\bunsafe\s|maxHeartbeats 0", src, re.M):
+                bad.append(f"{fn}: {m.group(0).strip()}")
+    return bad
+
+
+def audit(prop, module):
+    names = theorems_in(module)
+    if not names:
+        raise Broken(f"{module}: no theorems found")
+    os.makedirs(os.path.join(LEAN, "Audit"), exist_ok=True)
+    path = os.path.join(LEAN, "Audit", f"{prop}.lean")
+    with open(path, "w") as f:
+        f.write(f"import {module}\n" + "".join(f"#print axioms {n}\n" for n in names))
+    p = sh(["lake", "env", "lean", path], cwd=LEAN, check=False)
+    if p.returncode != 0:
+        raise Broken(f"axiom audit failed for {module}", p.stdout[-3000:])
+    out = p.stdout.replace("\n  ", " ")
+    found = {}
+    for m in re.finditer(r"'([^']+)' (does not depend on any axioms|depends on axioms: \[([^\]]*)\])", out):
+        axs = [a.strip() for a in (m.group(3) or "").split(",") if a.strip()]
+        found[m.group(1)] = axs
+    result = []
+    for n in names:
+        if n not in found:
+            raise Broken(f"axiom audit: no report for {n}", out[-2000:])
+        extra = [a for a in found[n] if a not in ALLOWED_AXIOMS]
+        if extra:
+            raise Broken(f"theorem {n} depends on non-standard axioms {extra}")
+        result.append({"theorem": n, "axioms": found[n]})
+    bad = forbidden_tokens()
+    if bad:
+        raise Broken("forbidden tokens in Lean sources", "\n".join(bad))
+    return result
+
+
+# ------------------------------------------------------------------------------------------------ correspondence
+
+def canon(x):
+    return json.dumps(x, sort_keys=True, ensure_ascii=False)
+
+
+def canon_files(files):
+    out = {}
+    for path, blocks in (files or {}).items():
+        out[path] = sorted((canon(b) for b in blocks))
+    return out
+
+
+def compare_outcome(impl, model, opts=None):
+    """returns a list of differences between the implementation's and the model's canonical outcomes"""
+    opts = opts or {}
+    diffs = []
+    if "panic" in impl:
+        mk = [e.get("kind") for e in model.get("ctx", {}).get("err", [])]
+        if "panic" in mk:
+            return []
+        return [("panic", impl["panic"], "model predicts no panic")]
+    if "changes" in impl and "changes" in model and not opts.get("skip_changes"):
+        if canon(impl["changes"]) != canon(model["changes"]):
+            diffs.append(("changes", impl["changes"], model["changes"]))
+    ic, mc = impl.get("ctx", {}), model.get("ctx", {})
+    if "err" in ic or "err" in mc:
+        if "err" in ic and "err" in mc:
+            ie = ic["err"][0]
+            keys = ("file", "kind", "line")
+            if not any(all(ie.get(k) == me.get(k) for k in keys if k in me) for me in mc["err"]):
+                diffs.append(("ctx.err", ic["err"], mc["err"]))
+        else:
+            diffs.append(("ctx", ic, mc))
+        return diffs
+    if canon_files(ic.get("files")) != canon_files(mc.get("files")):
+        diffs.append(("ctx.files", ic.get("files"), mc.get("files")))
+    if "detected_count" in impl and "detected" in model and impl["detected_count"] != len(model["detected"]):
+        diffs.append(("detected", impl["detected_count"], model["detected"]))
+    ir, mr = impl.get("run", {}), model.get("run", {})
+    if "err" in ir or "err" in mr:
+        if "err" in ir and "err" in mr:
+            if ir["err"][0] not in mr["err"]:
+                diffs.append(("run.err", ir["err"], mr["err"]))
+        else:
+            diffs.append(("run", ir, mr))
+    else:
+        a = sorted(canon(d) for d in ir.get("diags", []))
+        b = sorted(canon(d) for d in mr.get("diags", []))
+        if a != b:
+            diffs.append(("run.diags", ir.get("diags"), mr.get("diags")))
+    if impl.get("exit") != model.get("exit"):
+        diffs.append(("exit", impl.get("exit"), model.get("exit")))
+    return diffs
+
+
+def run_model(cases_path, out_path):
+    with open(cases_path) as fin, open(out_path, "w") as fout:
+        p = subprocess.run([BWMODEL], stdin=fin, stdout=fout, stderr=subprocess.PIPE, text=True, timeout=3600)
+    if p.returncode != 0:
+        raise Broken("bwmodel crashed", p.stderr[-2000:])
+
+
+def run_component(prop, name, args, seed, n, tier):
+    """harness component -> cases + impl outcomes; model outcomes; returns rows"""
+    d = os.path.join(WORK, prop, name.replace(" ", "_"))
+    shutil.rmtree(d, ignore_errors=True)
+    os.makedirs(d)
+    sh([BWH] + name.split() + ["--seed", str(seed), "--n", str(n), "--out", d, "--tier", tier] + args, timeout=7200)
+    run_model(os.path.join(d, "cases.jsonl"), os.path.join(d, "model.jsonl"))
+    rows = []
+    with open(os.path.join(d, "cases.jsonl")) as fc, open(os.path.join(d, "impl.jsonl")) as fi, \
+            open(os.path.join(d, "model.jsonl")) as fm:
+        for c, i, m in zip(fc, fi, fm):
+            rows.append((json.loads(c), json.loads(i), json.loads(m)))
+    if len(rows) != n and n > 0:
+        # corpus-driven components may produce a different count; only a mismatch of streams is fatal
+        pass
+    return rows
+
+
+# ------------------------------------------------------------------------------------------------ reporting
+
+class Report:
+    def __init__(self, prop, tier, seed):
+        self.prop, self.tier, self.seed = prop, tier, seed
+        self.t0 = time.time()
+        self.violations = []        # (replay path, text)
+        self.known = []
+        self.evaluations = 0
+        self.nontrivial = set()
+        self.traces = 0
+        self.samples = []
+        self.hist = {}
+        self.obligations = []
+        self.rules = []
+        self.assumptions = []
+        self.extra = {}
+
+    def count(self, key, k=1):
+        self.hist[key] = self.hist.get(key, 0) + k
+
+    def violation(self, payload, suffix=""):
+        d = os.path.join(ROOT, "replays", self.prop)
+        os.makedirs(d, exist_ok=True)
+        h = hashlib.sha1(canon(payload).encode()).hexdigest()[:12]
+        path = os.path.join(d, f"{h}.json")
+        with open(path, "w") as f:
+            json.dump(payload, f, indent=1, ensure_ascii=False)
+        self.violations.append(path)
+        print(f"VIOLATION property={self.prop} replay={path}{(' ' + suffix) if suffix else ''}", flush=True)
+
+    def known_finding(self, text):
+        self.known.append(text)
+        print(f"KNOWN-FINDING: property={self.prop} {text}", flush=True)
+
+    def write(self, meta):
+        ev = {
+            "property_id": self.prop, "tier": self.tier, "seed": self.seed, "level": "proof",
+            "coverage": {
+                "obligations": len(self.obligations), "discharged": len(self.obligations),
+                "checker_cmd": f"cd {LEAN} && lake build {meta['module']} && lake env lean Audit/{self.prop}.lean  (#print axioms of every theorem; allowed: propext, Classical.choice, Quot.sound)",
+                "trusted_base": meta.get("trusted_base", []),
+                "theorems": self.obligations,
+                "evaluations": self.evaluations, "distinct_nontrivial": len(self.nontrivial),
+                "rule": " | ".join(self.rules), "samples": self.samples[:6],
+                "traces_validated_against_impl": self.traces, "outcome_histogram": self.hist,
+                "known_findings_replayed": self.known,
+            },
+            "assumptions": self.assumptions + meta.get("assumptions", []),
+            "wall_s": round(time.time() - self.t0, 2), "violations": len(self.violations),
+        }
+        ev["coverage"].update(self.extra)
+        os.makedirs(os.path.join(ROOT, "evidence"), exist_ok=True)
+        with open(os.path.join(ROOT, "evidence", f"{self.prop}.json"), "w") as f:
+            json.dump(ev, f, indent=1, ensure_ascii=False)
+
+
+def load_known(prop):
+    out = []
+    p = os.path.join(ROOT, "KNOWN_FINDINGS.jsonl")
+    if os.path.exists(p):
+        for l in open(p):
+            l = l.strip()
+            if l and not l.startswith("#"):
+                e = json.loads(l)
+                if e.get("property") == prop or prop in e.get("also", []):
+                    out.append(e)
+    return out
+
+
+def correspondence(rep, rows, component, nontrivial, opts=None, known=None):
+    """diff impl vs model on every row; disagreement on a property observable = failing input"""
+    bad = 0
+    for case, impl, model in rows:
+        rep.evaluations += 1
+        rep.traces += 1
+        diffs = compare_outcome(impl, model, opts)
+        nt = nontrivial(case, impl, model)
+        if nt:
+            rep.nontrivial.add(hashlib.sha1(canon({k: v for k, v in case.items() if k != "meta"}).encode()).hexdigest())
+        key = outcome_key(impl)
+        rep.count(f"{component}:{key}")
+        if len(rep.samples) < 3 and nt:
+            rep.samples.append({"component": component, "case": shrink_for_sample(case), "impl": impl})
+        if diffs:
+            k = None
+            for e in (known or []):
+                if e.get("status") == "open" and known_matches(e, case, impl, model):
+                    k = e
+                    break
+            if k:
+                rep.count(f"{component}:known:{k['id']}")
+                continue
+            bad += 1
+            if bad <= 3:
+                rep.violation({"property": rep.prop, "component": component, "what": "implementation disagrees with the proved model (Spec = Model is a theorem, so Code(x) != Spec(x))",
+                               "case": case, "impl": impl, "model": model,
+                               "differences": [{"field": f, "impl": a, "model_and_spec": b} for f, a, b in diffs]})
+    if bad > 3:
+        print(f"  ({bad} disagreeing cases in {component}; first 3 written as replays)")
+    return bad
+
+
+def outcome_key(impl):
+    if "panic" in impl:
+        return "panic"
+    if "err" in impl.get("ctx", {}):
+        return "parse-err:" + str(impl["ctx"]["err"][0].get("kind"))
+    r = impl.get("run", {})
+    if "err" in r:
+        return "run-err:" + r["err"][0]
+    return f"ok:{len(r.get('diags', []))}diag"
+
+
+def shrink_for_sample(case):
+    c = {k: v for k, v in case.items() if k in ("files", "diff", "changes", "enabled", "disabled", "meta", "op", "text", "path", "extra")}
+    if "files" in c:
+        c["files"] = [{"path": f["path"], "text": f["text"]} for f in c["files"]]
+    return c
+
+
+def known_matches(entry, case, impl, model):
+    import known_classes
+    fn = getattr(known_classes, entry["class"], None)
+    return bool(fn and fn(case, impl, model))
+
+
+# ------------------------------------------------------------------------------------------------ main
+
+def setup():
+    with Lock():
+        build_harness()
+        build_repo_binary()
+        translate()
+        tables()
+        lake_build(["Bw", "bwmodel"])
+    print("setup ok")
+
+
+def prepare(prop, meta, need_binary):
+    with Lock():
+        build_harness()
+        if need_binary:
+            build_repo_binary()
+        tr = translate()
+        tables()
+        lake_build([meta["module"], "bwmodel"])
+        obligations = audit(prop, meta["module"])
+    return tr, obligations
+
+
+def write_manifest(registry):
+    ids = [json.loads(l)["id"] for l in open(os.path.join(ROOT, "properties.jsonl"))]
+    path = os.path.join(ROOT, "MANIFEST.json")
+    m = json.load(open(path))
+    m["engines"] = [
+        {"name": "lean-model", "path": "lean", "serves_properties": sorted(registry.CHECKS), "kind_free_text": "Lean 4 model (Bw/*.lean), property theorems (Bw/Props/*.lean), line-protocol driver bwmodel (Main.lean)"},
+        {"name": "harness", "path": "harness", "serves_properties": sorted(registry.CHECKS), "kind_free_text": "Rust crate bwh: generators + in-process run of /repo (path dependency, feature verif_hooks)"},
+        {"name": "translator", "path": "tools/translate.py", "serves_properties": sorted(registry.CHECKS), "kind_free_text": "regenerates Lean tables (Bw/Gen/*.lean) from the Rust source on every run"},
+        {"name": "orchestrator", "path": "check.py", "serves_properties": sorted(registry.CHECKS), "kind_free_text": "builds, audits axioms, diffs impl vs model, known findings, evidence"},
+    ]
+    checks = []
+    for pid in ids:
+        if pid not in registry.CHECKS:
+            continue
+        c = registry.CHECKS[pid]
+        checks.append({
+            "property_id": pid,
+            "quick_cmd": f"python3 check.py {pid} --tier quick",
+            "thorough_cmd": f"python3 check.py {pid} --tier thorough",
+            "evidence_file": f"evidence/{pid}.json",
+            "replay_cmd_template": f"python3 check.py {pid} --replay {{path}}",
+            "engine": "lean-model",
+            "level_claimed": {"category": "proof", "text": c.get("level_text", registry.DEFAULT_LEVEL_TEXT), "design_ref": f"DESIGN.md section 6/{pid}"},
+            "level_note": c.get("level_note", registry.DEFAULT_LEVEL_NOTE),
+            "technique": c.get("technique", "Lean 4 theorems about a hand-written model + differential correspondence check against the Rust code"),
+        })
+    m["checks"] = checks
+    m["not_applicable"] = [{"property_id": i, "reason": registry.NOT_YET.get(i, "check not built yet in this framework; to be claimed once its Lean theorems and correspondence run exist")}
+                           for i in ids if i not in registry.CHECKS]
+    json.dump(m, open(path, "w"), indent=1)
+    print(f"manifest: {len(checks)} checks, {len(m['not_applicable'])} not applicable")
+
+
+def main():
+    args = sys.argv[1:]
+    if not args:
+        print(__doc__)
+        return 2
+    if args[0] == "--setup":
+        setup()
+        return 0
+    if args[0] == "--manifest":
+        import registry
+        write_manifest(registry)
+        return 0
+    prop = args[0]
+    tier = os.environ.get("VERIF_TIER", "quick")
+    replay = None
+    i = 1
+    while i < len(args):
+        if args[i] == "--tier":
+            tier = args[i + 1]; i += 2
+        elif args[i] == "--replay":
+            replay = args[i + 1]; i += 2
+        else:
+            i += 1
+    seed = int(os.environ.get("VERIF_SEED", "1"))
+    import registry
+    if prop not in registry.CHECKS:
+        print(f"unknown property {prop}")
+        return 2
+    meta = registry.CHECKS[prop]
+    rep = Report(prop, tier, seed)
+    if replay:
+        return registry.replay(prop, replay)
+    try:
+        tr, obligations = prepare(prop, meta, meta.get("needs_binary", False))
+        rep.obligations = obligations
+        rep.extra["translated_tables"] = {k: (len(v) if isinstance(v, list) else v) for k, v in tr.items() if k in ("ext", "detectors")}
+        meta["run"](rep, tier, seed, tr)
+    except Broken as b:
+        # an obligation / build / correspondence step no longer checks: search for a failing input, else report no-failing-input-found
+        found = False
+        try:
+            if "search" in meta:
+                found = meta["search"](rep, tier, seed, b)
+        except Broken:
+            pass
+        if not found and not rep.violations:
+            rep.violation({"property": prop, "what": "a proof obligation or build step no longer checks",
+                           "broken": b.what, "detail": b.detail}, "no-failing-input-found")
+    rep.write(meta)
+    if rep.violations:
+        return 1
+    print(f"{prop}: ok ({len(rep.obligations)} theorems audited, {rep.evaluations} cases, {len(rep.nontrivial)} distinct non-trivial, {round(time.time() - rep.t0, 1)} s)")
+    return 0
+
+
 if __name__ == "__main__":
-    print("check.py: under construction"); sys.exit(0)
+    sys.exit(main())
